@@ -154,7 +154,18 @@ def check_string(ctx, substitute, ZConfig, s, rng=None, family="enum"):
     res = ctx.res
     dnames, enames = refsubst.names(s)
     nontrivial = "$" in s
+    # decoys: keys spelled as written (or upper-cased); the lookup uses the
+    # lower-cased name, so they must never be found
+    toks, _, _ = refsubst.scan(s)
+    decoys = {}
+    for t in toks:
+        if t[0] == "ref" and t[1] != "env":
+            for sp in (t[2], t[2].upper()):
+                if sp != sp.lower():
+                    decoys[sp] = "DECOY"
     for mapping, env in assignments(dnames, enames, rng):
+        if decoys:
+            mapping = dict(decoys, **mapping)
         res.evaluations += 1
         exp = refsubst.subst(s, mapping, env)
         touched = sorted(set(enames) | set(env))
